@@ -1036,10 +1036,11 @@ func c11PanicSite(msg string) string {
 type c11Counts struct {
 	add     map[string]int64
 	outcome map[string]int64
+	vio     map[string]int // violations seen per signature in this task (not reported; see c12Violate)
 }
 
 func c11NewCounts() *c11Counts {
-	return &c11Counts{add: map[string]int64{}, outcome: map[string]int64{}}
+	return &c11Counts{add: map[string]int64{}, outcome: map[string]int64{}, vio: map[string]int{}}
 }
 
 var (
